@@ -26,6 +26,7 @@ def run(world, sut, op):
                           'is_valid=%r errors=%d' % (r1.is_valid, len(r1.errors)), step)
         world.probe('c04_errors_form')
         world.probe('c04_invalid_state' if r1.errors else 'c04_valid_state')
+        verdict(world, sut, op, ri, n1, step)
         return n1
     if variant == 'raise':
         try:
@@ -103,3 +104,39 @@ def run(world, sut, op):
                 world.violate('C04.raise_first', 'raising form (with report) raises something else than the first reported error',
                               '%s vs %s' % (canon_exc(exc) if exc else None, canon_exc(r1.errors[0])), step)
     return [n1, fired, canon_exc(exc) if exc else None]
+
+
+def verdict(world, sut, op, ri, n1, step):
+    """Monitor 6 (DESIGN §7.7): predicted structural defects must each be named by an error; a state
+    without predicted defect, reached from a clean start by valid writes only, must validate."""
+    from models import validator_model as VM
+    if op.get('p'):
+        return
+    m = sut.models[ri]
+    meta = sut.meta[ri]
+    if m is None or meta['kind'] not in ('msg', 'seg'):
+        return
+    defects = VM.predict(m, meta['version'])
+    if defects is None:
+        return
+    errors = n1[1]
+    world.probe('c04_verdict_checked')
+    for d in defects:
+        if not VM.named(d, errors):
+            world.violate('C04.verdict', 'a %s child is not reported by validate()' % {
+                'missing': 'missing required', 'exceeded': 'surplus (maximum exceeded)', 'not_allowed': 'not allowed'}[d[0]],
+                '%s %s in %s; errors=%r' % (d[0], d[1], d[2], errors[:6]), step)
+            break
+    if defects:
+        world.probe('c04_predicted_defect_' + defects[0][0])
+        if n1[0]:
+            world.violate('C04.verdict', 'is_valid is True although the structure has a defect', repr(defects[:3]), step)
+    else:
+        clean_start = getattr(sut, 'clean_start', None)
+        if clean_start is None:
+            return
+        if clean_start and not getattr(sut, 'wrote_invalid', False):
+            world.probe('c04_conforming_state_checked')
+            if errors:
+                world.violate('C04.verdict', 'a conforming element (clean start, valid writes, no structural defect) fails validation',
+                              repr(errors[:4]), step)
